@@ -228,4 +228,24 @@ theorem C16_load_by_name (f : DigFile) (name : String) :
     obtain ⟨hlt, _, hf⟩ := posOf_some _ f.tests n hn
     exact ⟨by simp [loadTestByName, hn], hlt, hf⟩
 
+/-- **Comments and processing instructions are not character data** (fix F18): removing every node that is neither
+text nor an element from the children of an element leaves its character data — label, width, source text — unchanged,
+wherever those nodes stood. -/
+theorem C16_text_ignores_comments (t : String) (a : List (String × String)) (cs : List Xml) :
+    (Xml.elem t a (cs.filter (fun c => match c with | .other => false | _ => true))).text? = (Xml.elem t a cs).text? := by
+  have h : ∀ cs : List Xml, Xml.textsOf (cs.filter (fun c => match c with | .other => false | _ => true)) = Xml.textsOf cs := by
+    intro cs
+    induction cs with
+    | nil => rfl
+    | cons c cs ih =>
+      cases c with
+      | other => simp [List.filter, Xml.textsOf, ih]
+      | text s => simp [List.filter, Xml.textsOf, ih]
+      | elem t' a' cs' => simp [List.filter, Xml.textsOf, ih]
+  simp only [Xml.text?, h]
+
+/-- the character data of an element is the concatenation of its text children in document order -/
+example : (Xml.elem "dataString" [] [.text "A B\n0 0\n", .other, .text "1 1\n"]).text? = some "A B\n0 0\n1 1\n" := by
+  decide
+
 end Dtr
